@@ -70,6 +70,11 @@ pub proof fn lemma_lv_inj(s: Seq<u64>, t: Seq<u64>, n: nat)
     }
 }
 
+// bit length as a spec: 0 for 0, else the k with 2^(k-1) <= x < 2^k
+pub open spec fn is_bit_len(x: nat, k: nat) -> bool {
+    if x == 0 { k == 0 } else { k >= 1 && pow2((k - 1) as nat) <= x && x < pow2(k) }
+}
+
 pub open spec fn spec_nlimbs(bits: usize) -> int { (bits + 63) / 64 }
 
 pub open spec fn spec_mask(bits: usize) -> u64 {
